@@ -42,6 +42,12 @@ type c13case struct {
 
 func (o c13op) line() string {
 	switch o.Kind {
+	case "bnew", "bwrite", "bclose":
+		return o.Kind
+	case "bs":
+		return "bs " + o.K + " " + o.V
+	case "bd":
+		return "bd " + o.K
 	case "get", "has", "del":
 		return o.Kind + " " + o.K
 	case "set":
@@ -87,13 +93,64 @@ func mustUnhex(s string) []byte {
 }
 
 // c13exec runs one op on a tm-db DB (the real overlay) and returns the canonical answer.
-func c13exec(db dbm.DB, o c13op) (ans string) {
+// `open` holds the batch object of the bnew/bs/bd/bwrite/bclose operations.
+func c13exec(db dbm.DB, open *dbm.Batch, o c13op) (ans string) {
 	defer func() {
 		if r := recover(); r != nil {
 			ans = fmt.Sprintf("panic %v", r)
 		}
 	}()
 	switch o.Kind {
+	case "bnew":
+		if *open != nil {
+			(*open).Close()
+		}
+		*open = db.NewBatch()
+		return "ok"
+	case "bs":
+		if *open == nil {
+			if len(mustUnhex(o.K)) == 0 || o.V == "-" {
+				return "err"
+			}
+			return "ok"
+		}
+		if err := (*open).Set(mustUnhex(o.K), mustUnhex(o.V)); err != nil {
+			return "err"
+		}
+		return "ok"
+	case "bd":
+		if *open == nil {
+			if len(mustUnhex(o.K)) == 0 {
+				return "err"
+			}
+			return "ok"
+		}
+		if err := (*open).Delete(mustUnhex(o.K)); err != nil {
+			return "err"
+		}
+		return "ok"
+	case "bwrite":
+		if *open == nil {
+			return "ok"
+		}
+		var err error
+		if o.Sync {
+			err = (*open).WriteSync()
+		} else {
+			err = (*open).Write()
+		}
+		(*open).Close()
+		*open = nil
+		if err != nil {
+			return "err"
+		}
+		return "ok"
+	case "bclose":
+		if *open != nil {
+			(*open).Close()
+			*open = nil
+		}
+		return "ok"
 	case "get":
 		v, err := db.Get(mustUnhex(o.K))
 		if err != nil {
@@ -183,6 +240,47 @@ func c13exec(db dbm.DB, o c13op) (ans string) {
 // c13ref is the independent reference: "an ordinary store pre-loaded with the underlying data",
 // written directly from tm-db's documented contract (empty key / nil value refused, [start,end) domain).
 type c13ref map[string][]byte
+
+// c13refBatch is the reference's batch object: staged entries are invisible until written.
+type c13refBatch struct {
+	open   bool
+	staged []c13bop
+}
+
+func (r c13ref) execX(rb *c13refBatch, o c13op) string {
+	emptyK := func(s string) bool { b := mustUnhex(s); return len(b) == 0 }
+	switch o.Kind {
+	case "bnew":
+		rb.open, rb.staged = true, nil
+		return "ok"
+	case "bs":
+		if emptyK(o.K) || o.V == "-" {
+			return "err"
+		}
+		if rb.open {
+			rb.staged = append(rb.staged, c13bop{K: o.K, V: o.V})
+		}
+		return "ok"
+	case "bd":
+		if emptyK(o.K) {
+			return "err"
+		}
+		if rb.open {
+			rb.staged = append(rb.staged, c13bop{Del: true, K: o.K})
+		}
+		return "ok"
+	case "bwrite":
+		if rb.open {
+			r.exec(c13op{Kind: "batch", B: rb.staged})
+		}
+		rb.open, rb.staged = false, nil
+		return "ok"
+	case "bclose":
+		rb.open, rb.staged = false, nil
+		return "ok"
+	}
+	return r.exec(o)
+}
 
 func (r c13ref) exec(o c13op) string {
 	emptyK := func(s string) bool { b := mustUnhex(s); return len(b) == 0 }
@@ -280,10 +378,12 @@ func c13run(cs c13case) (answers []string, failure string) {
 	}
 	before := c13dump(perm)
 	o := database.NewBackedMemDb(perm)
+	var open dbm.Batch
+	var rb c13refBatch
 	for i, op := range cs.Ops {
-		a := c13exec(o, op)
+		a := c13exec(o, &open, op)
 		answers = append(answers, a)
-		want := ref.exec(op)
+		want := ref.execX(&rb, op)
 		if a != want && failure == "" {
 			failure = fmt.Sprintf("op %d (%s): overlay answered %q, an ordinary pre-loaded store answers %q", i, op.line(), a, want)
 		}
@@ -376,7 +476,27 @@ func c13gen(c *hx.Ctx, maxOps int) c13case {
 	nops := 1 + r.Intn(maxOps)
 	for s := 0; s < nops; s++ {
 		var op c13op
-		switch r.Intn(10) {
+		switch r.Intn(14) {
+		case 10:
+			op = c13op{Kind: "bnew"}
+		case 11:
+			if r.Intn(3) == 0 {
+				op = c13op{Kind: "bd", K: key()}
+			} else {
+				op = c13op{Kind: "bs", K: key(), V: val()}
+			}
+		case 12:
+			if r.Intn(2) == 0 {
+				op = c13op{Kind: "bs", K: key(), V: val()}
+			} else {
+				op = c13op{Kind: "get", K: key()}
+			}
+		case 13:
+			if r.Intn(3) == 0 {
+				op = c13op{Kind: "bclose"}
+			} else {
+				op = c13op{Kind: "bwrite", Sync: r.Intn(4) == 0}
+			}
 		case 0, 1:
 			op = c13op{Kind: "set", K: key(), V: val(), Sync: r.Intn(4) == 0}
 		case 2:
